@@ -54,6 +54,10 @@ def plan(tier, seed):
     for suffix in ("md", "markdown"):
         for i in range(6 if tier == "quick" else 60):
             jobs.append({"k": "md-nested", "suffix": suffix, "i": i, "seed": seed, "flavour": "rel"})
+    # far positions: blocks beyond line 65535 and tags beyond column 65535 (prose in front of the tag on its line)
+    for suffix in (langs.ALL_SUFFIXES if tier == "thorough" else ["py", "rs", "js", "md", "html", "go", "sql", "java"]):
+        if suffix != "swift":
+            jobs.append({"k": "far", "suffix": suffix, "seed": seed, "flavour": "rel"})
     for suffix in langs.ALL_SUFFIXES:
         if langs.SUFFIX_LANG[suffix] in langs.INTERP:
             for i in range(2 if tier == "quick" else 20):
@@ -208,6 +212,13 @@ def run_job(job, ctx):
         for j in range(6):
             r = rng("c03md", job["seed"], suffix, job["i"], j)
             out.append(check_file(ctx, suffix, _md_nested(r, script), flavour, dict(job, j=j)))
+    elif job["k"] == "far":
+        for j, (fl, lp) in enumerate(((66000, 0), (0, 70000), (300, 300))):
+            r = rng("c03far", job["seed"], suffix, j)
+            o = gen.Opts(eol="\n", attrs_fn=_attrs_fn(script), max_depth=2, max_blocks=4, filler_lines=fl, long_prose=lp, decoys=False)
+            g = gen.gen_file(r, lang, o)
+            g.meta["layouts"] = list(g.meta["layouts"]) + ["far-lines" if fl > 65535 else "far-columns" if lp > 65535 else "far-control"]
+            out.append(check_file(ctx, suffix, g, flavour, dict(job, j=j)))
     elif job["k"] == "interp":
         for j in range(6):
             r = rng("c03i", job["seed"], suffix, job["i"], j)
